@@ -26,8 +26,14 @@ and python float and, in the quick tier, a second smaller grid of the opposite o
 the random Heaviside widths are passed as real_t scalars, every first repetition runs on a grid whose first axis is the
 longest; damping (quick): one TALL (2-D: grid_size_y > grid_size_x) / axis-permuted (3-D) grid per shard, plus SIBLING kernels
 sharing grid shape and precision with the last pool kernel of the shard but differing in width resp. dx (python float), then
-that pool kernel object again; filters: every filter object is re-checked (constant, two plane waves) after the NEXT object
+that pool kernel object again; every second pool kernel and the tall one get coordinate fields with a DIFFERENT origin per
+axis (x from 0, y from -0.37 L_y, z centred about 0; all assertions are offset-invariant); filters: both work buffers are
+overwritten completely (outer ring included) with finite / NaN garbage before EVERY call of a filter object (counted), and every filter object is re-checked (constant, two plane waves) after the NEXT object
 was generated and used, and the odd-order vector filters share the grid shape of the scalar filter generated just before.
+
+Self-test of the added dimensions: penalise_field_boundary_2d.py:43 y_grid_field[-1, 0] -> y_grid_field[min(shape) - 1, 0]
+(wrong only when grid_size_y > grid_size_x) -> VIOLATION damping-ring!=0, witnesses only on the 'tall' grid (12, 7).
+(A harness bug was made and fixed while adding the re-check of earlier filter objects: closures over loop variables bind late.)
 
 Tolerances (K * eps_t * magnitude; measured max err/tol on the unchanged tree + F6.diff, seeds 0..5 quick,
 0..1 thorough, both precisions):
@@ -122,6 +128,9 @@ REQUIRE = {
     "damping_width0_calls": 2,
     "damping_width1_calls": 2,
     "damping_calls_tall": {"quick": 20, "thorough": 0},
+    "damping_calls_distinct_origin_per_axis": 40,
+    "damping_calls_common_origin": 40,
+    "filter_calls_2nd_or_later_with_dirty_buffer_rings": 500,
     "damping_calls_sibling_width": 8,
     "damping_calls_sibling_dx": 8,
     "damping_calls_first_again": 8,
@@ -571,11 +580,17 @@ def _damp(sh, rec):
     rng = util.rng_for(sh["seed"], ID, sh["name"])
     thorough = sh["tier"] != "quick"
     kept = {}
-    for w, shape, dx, role, variants in _damp_jobs(d, sh["widths"], thorough):
-            axes = [((np.arange(n) + 0.5) * dx).astype(real_t) for n in shape]
+    for ijob, (w, shape, dx, role, variants) in enumerate(_damp_jobs(d, sh["widths"], thorough)):
+            # coordinate origin: pool jobs of even index (and the siblings of the last pool kernel) use the common origin 0 for
+            # every axis (cell centres from dx/2); the others give every axis its OWN origin -- x from 0, y from -0.37 L_y, z
+            # centred about 0 -- so that an x/y/z grid start or end taken from the wrong coordinate field shows.  Offsets stay
+            # inside the extent (|coordinate| <= L), hence the rounding model of the ring tolerance is unchanged.
+            distinct = (role == "pool" and ijob % 2 == 1) or role == "tall"
+            frac = ([-0.37, 0.0] if d == 2 else [-0.5, -0.37, 0.0]) if distinct else [0.0] * d  # array-axis order (z,) y, x
+            axes = [((np.arange(n) + 0.5) * dx + fr * n * dx).astype(real_t) for n, fr in zip(shape, frac)]
             g = [np.ascontiguousarray(a) for a in np.meshgrid(*axes, indexing="ij")][::-1]  # x, y(, z)
             for var in variants:
-                meta = {"dim": d, "dtype": sh["dtype"], "shape": shape, "dx": dx, "width": w, "variant": var, "object": role}
+                meta = {"dim": d, "dtype": sh["dtype"], "shape": shape, "dx": dx, "width": w, "variant": var, "object": role, "axis_origin_fractions": frac}
                 if role == "first-again":
                     k = kept.get((w, shape, dx, var))
                     if k is None:
@@ -608,6 +623,7 @@ def _damp(sh, rec):
                 for kind, f0 in fields:
                     f = f0.copy()
                     rec.count("damping_calls")
+                    rec.count("damping_calls_distinct_origin_per_axis" if distinct else "damping_calls_common_origin")
                     rec.count(f"damping_width{w}_calls" if w < 2 else "damping_widthge2_calls")
                     if role != "pool":
                         rec.count("damping_calls_" + role.replace("-", "_"))
@@ -726,7 +742,9 @@ def _filter(sh, rec):
             def apply(a):
                 """run the real filter on a copy with fresh garbage in both work buffers"""
                 gi[0] += 1
-                _garbage(rng, (fb, bb), ("finite", "nan")[gi[0] % 2])
+                _garbage(rng, (fb, bb), ("finite", "nan")[gi[0] % 2])  # whole arrays, OUTER RING included, before EVERY call
+                if gi[0] >= 2:
+                    rec.count("filter_calls_2nd_or_later_with_dirty_buffer_rings")
                 g = np.ascontiguousarray(a.astype(real_t))
                 call(g)
                 return g
@@ -845,6 +863,8 @@ def _filter(sh, rec):
                         _garbage(rng, (fb, bb), gk)
                         g = a.copy()
                         call(g)
+                        if gk != "zero":
+                            rec.count("filter_calls_2nd_or_later_with_dirty_buffer_rings")
                         outs.append(g)
                     rec.count("filter_history_bitwise")
                     rec.case((*base, "history", kind))
